@@ -222,6 +222,14 @@ def step (s : TState) (c : UInt8) : TState :=
 /-- the start tags of a page, in document order -/
 def tokenize (page : Bytes) : List Tag := ((normalizeNewlines page).foldl step {}).out.reverse
 
+/-- character data of a page that is not white space: the bytes the tokenizer passes in its data state (outside every
+    tag, comment and doctype) other than `<` and white space.  An auto-submitting form has none. -/
+def strayText : TState → Bytes → Bytes
+  | _, [] => []
+  | st, c :: r => (if st.mode == .data && c != 0x3C && !isSpace c then [c] else []) ++ strayText (step st c) r
+
+def pageText (page : Bytes) : Bytes := strayText {} (normalizeNewlines page)
+
 -- character references in attribute values
 
 def utf8Encode (n : Nat) : Bytes :=
@@ -324,6 +332,7 @@ inductive Observed
   | form (page : Bytes) (ua : List Tag)    -- 200 with this HTML page; `ua` = the start tags golang.org/x/net/html found in it (values decoded)
   | refused                                -- an error answer that delivers nothing to any URI
   | panic
+  | cutOff (page : Bytes) (ua : List Tag)  -- 200, but the connection broke while the page was written: the bytes that did arrive (`ua` as for `form`)
   deriving Repr, Inhabited
 
 inductive Channel | query | fragment | form
@@ -446,6 +455,7 @@ def formOf (tags : List Tag) : Except String (Bytes × List (Bytes × Bytes)) :=
 
 def checkForm (i : Input) (page : Bytes) (ua : List Tag) : Option String :=
   let tags := (tokenize page).map decodeTag
+  if !(pageText page).isEmpty then some "text-outside-the-form" else
   if tags != ua then some "ua-views-differ" else
   match formOf tags with
   | .error e => some e
@@ -453,6 +463,33 @@ def checkForm (i : Input) (page : Bytes) (ua : List Tag) : Option String :=
     if !sameTarget action i.uri then some "form-action-differs" else
     paramsArrive "form" i.params [] fields
     <|> sourceArrives "form" i [] fields
+
+def isForm (t : Tag) : Option Bytes :=
+  match t.attrs with
+  | [(m, p), (a, action)] => if t.name == s "form" && m == s "method" && p == s "post" && a == s "action" then some action else none
+  | _ => none
+
+/-- what the second tokenizer (golang.org/x/net/html) reports for character data that is not white space: the harness writes
+    such a pseudo tag into `ua` (for a `form` page the two views then differ: `ua-views-differ`; the specification's own
+    reading of "text outside the tags" is `pageText`) -/
+def isStrayText (t : Tag) : Bool := t.name == s "#text"
+
+/-- a page that was CUT OFF while it was written (the connection to the user agent broke).  Nothing can be demanded to
+    arrive; but whatever the user agent finds in the part that did arrive belongs to THIS response: start tags of the
+    fixed frame, at most one form whose action addresses this request's redirect URI, hidden inputs that carry
+    parameters of this response with their values — no other element or attribute, no text, nothing of another response. -/
+def checkPartial (i : Input) (page : Bytes) (ua : List Tag) : Option String :=
+  let tags := (tokenize page).map decodeTag
+  if !(pageText page).isEmpty || ua.any isStrayText then some "partial-text-outside-the-form" else
+  if (tags.filter fun t => (isForm t).isSome).length > 1 then some "partial-more-than-one-form" else
+  firstSome tags fun t =>
+    if pageFrame.contains t then none else
+    match isForm t with
+    | some action => if sameTarget action i.uri then none else some "form-action-differs"
+    | none =>
+      match isInput t with
+      | some (n, v) => if (valuesOf n i.params).contains v then none else some s!"partial-input-not-of-this-response:{showBytes n}"
+      | none => some s!"partial-unexpected-element-or-attribute:{showBytes t.name}"
 
 /-- THE MONITOR: `none` = the observed response satisfies C11 on this input, `some clause` = it does not -/
 def monitor (i : Input) (o : Observed) : Option String :=
@@ -465,5 +502,7 @@ def monitor (i : Input) (o : Observed) : Option String :=
     else some "wrong-channel:redirect"
   | .form page ua =>
     if (channels i).contains .form then checkForm i page ua else some "wrong-channel:form"
+  | .cutOff page ua =>
+    if (channels i).contains .form then checkPartial i page ua else some "wrong-channel:form"
 
 end C11
